@@ -110,6 +110,44 @@ def cluster_session_creation(repo: Path):
     return casts, sites
 
 
+def start_drain_gates(repo: Path):
+    """Round 4 (agent spawn, C07/C08): the gates of the start-vs-drain window.
+
+    * the guard of `drain()`'s `fetch_update` (which statuses it lifts to Draining),
+    * the child-status bound `link()` and `link_starting()` pass to `link_below`,
+    * the link call `start` makes (Send and thread-local).
+    Sentinels ("" / false) when not found, so that the obligation fails."""
+    props = strip_comments(read(repo, "ractor/src/actor/actor_properties.rs"))
+    drain = fn_body(props, "drain") or ""
+    m = re.search(r"fetch_update\([^|]*\|f\|\s*\{\s*if\s+(.*?)\s*\{\s*Some\(ActorStatus::(\w+)", drain, flags=re.S)
+    guard = re.sub(r"\s+", " ", m.group(1)) if m else ""
+    lifted = m.group(2) if m else ""
+    sup = strip_comments(read(repo, "ractor/src/actor/supervision.rs"))
+
+    def bound(fn):
+        b = fn_body(sup, fn) or ""
+        mm = re.search(r"link_below\(\s*child\s*,\s*supervisor\s*,\s*(?:super::actor_cell::)?ActorStatus::(\w+)", b)
+        return mm.group(1) if mm else ""
+    below = fn_body(sup, "link_below") or ""
+    below_ok = bool(re.search(r"child\.get_status\(\)\s*>=\s*child_limit\s*\|\|\s*supervisor\.get_status\(\)\s*>=\s*(?:super::actor_cell::)?ActorStatus::Draining", below))
+    actor = strip_comments(read(repo, "ractor/src/actor.rs"))
+    inner = strip_comments(read(repo, "ractor/src/thread_local/inner.rs"))
+    m1 = re.search(r"actor_ref\.(try_link\w*)\(", fn_body(actor, "start") or "")
+    m2 = re.search(r"actor_ref\.(try_link\w*)\(", fn_body(inner, "start") or "")
+    cell = strip_comments(read(repo, "ractor/src/actor/actor_cell.rs"))
+    m3 = re.search(r"SupervisionTree::(\w+)\(", fn_body(cell, "try_link_starting") or "")
+    return {
+        "drainLiftGuard": guard,
+        "drainLiftsTo": lifted,
+        "linkChildBound": bound("link"),
+        "linkStartingChildBound": bound("link_starting"),
+        "linkBelowGate": below_ok,
+        "sendStartLinkCall": m1.group(1) if m1 else "",
+        "localStartLinkCall": m2.group(1) if m2 else "",
+        "tryLinkStartingCalls": m3.group(1) if m3 else "",
+    }
+
+
 def main():
     ap = argparse.ArgumentParser()
     ap.add_argument("--repo", default="/repo")
@@ -167,14 +205,14 @@ def main():
         m = re.search(pat, body)
         return m.start() if m else -1
     p_pre = pos(start_body, r"run_with_signal\(pre_start\)")
-    p_link = pos(start_body, r"try_link\(")
+    p_link = pos(start_body, r"try_link(?:_starting)?\(")
     p_mark = pos(start_body, r"lifecycle\.mark_running\(\)")
     p_spawn = pos(start_body, r"spawn_named\(")
     send_start_order_ok = (0 <= p_pre < p_link < p_mark < p_spawn)
     send_start_awaits = len(re.findall(r"\.await", start_body.split("spawn_named(")[0])) if start_body else -1
     inner_src = strip_comments(read(repo, "ractor/src/thread_local/inner.rs"))
     lstart = fn_body(inner_src, "start") or ""
-    l_link = pos(lstart, r"try_link\(")
+    l_link = pos(lstart, r"try_link(?:_starting)?\(")
     l_pre = pos(lstart, r"run_with_signal\(pre_start\)")
     l_mark = pos(lstart, r"lifecycle\.mark_running\(\)")
     local_start_order_ok = (0 <= l_link < l_pre < l_mark)
@@ -283,6 +321,13 @@ def main():
     w(f"def notifyOrder : List String := {lean_strs(notify_order)}")
     w(f"def sendSteps : List String := {lean_strs(send_steps)}")
     w(f"def drainSteps : List String := {lean_strs(drain_steps)}")
+    w("")
+    w("/-- the gates of the start-vs-drain window (`start_drain_gates`) -/")
+    g = start_drain_gates(repo)
+    for k in ("drainLiftGuard", "drainLiftsTo", "linkChildBound", "linkStartingChildBound",
+              "sendStartLinkCall", "localStartLinkCall", "tryLinkStartingCalls"):
+        w(f"def {k} : String := {lean_str(g[k])}")
+    w(f"def linkBelowGate : Bool := {str(g['linkBelowGate']).lower()}")
     w("")
     w(f"def frameReadChunkSize : Option Nat := {opt_nat(frame_chunk)}")
     w(f"def defaultMaxInboundFrameSize : Option Nat := {opt_nat(max_frame)}")
